@@ -114,6 +114,21 @@ func c20Exec(cs fw.Case) *fw.Fail {
 	if fail != "" {
 		return fw.Failf("same meaning as the canonical rendering", "%s", fail)
 	}
+	// comments must also end at CR/LF only when the source arrives in pieces (file API)
+	if strings.Contains(c.Variant, "#") && len(c.Variant) <= 200 {
+		whole := obsWhole(c.Variant)
+		for _, k := range []int{1, 3, 7, 16} {
+			var sizes []int
+			for n := 0; n < len(c.Variant); n += k {
+				sizes = append(sizes, k)
+			}
+			fw.Tally("chunked_comment_parses", 1)
+			got, _ := obsFile(c.Variant, scriptOf(sizes))
+			if d := diffObs(whole, got); d != "" {
+				return fw.Failf("a comment ends at the next CR or LF and nowhere else, also when read in pieces", "reads of %d bytes: %s", k, d)
+			}
+		}
+	}
 	const exp = "same instructions, constants, output, blocks, binding and error as the canonical rendering "
 	switch {
 	case want.rejected != got.rejected:
